@@ -16,51 +16,51 @@ import (
 
 // Sim executes a history step by step against a real broker and feeds the model.
 type Sim struct {
-	B      *eng.Broker
-	M      *Model
-	Cfg    *Config
-	Slots  []*Slot
-	evIdx  int
-	nmsg   int
-	Trace  []string // human-readable trace of the run (ops and observed packets)
-	Incon  string   // non-empty if the run became inconclusive (quiescence timeout)
+	B                   *eng.Broker
+	M                   *Model
+	Cfg                 *Config
+	Slots               []*Slot
+	evIdx               int
+	nmsg                int
+	Trace               []string // human-readable trace of the run (ops and observed packets)
+	Incon               string   // non-empty if the run became inconclusive (quiescence timeout)
 	lastInflightDropped int64
 	lastMsgsDropped     int64
-	t0     int64
-	Opt    SimOptions
-	aliasRejected []aliasRej
-	curOp  *Op
-	statsFlagged  map[string]bool
-	flushIdx      int
-	sentBy        map[string][]byte
-	flushFlagged  map[string]bool
-	inl           *inlineState
-	pendingInline []pendingInline
-	reported      map[string]map[string]int
-	Store         mqtt.Hook // the storage hook of the current broker instance (if any)
-	Restarts      int
-	PrevSnap      *Snap // model before the step that was executed last
-	CurSnap       *Snap // model after it
-	StoppedAt     int
-	CrashSeq      atomic.Int64 // global sequence number at which the first storage write was lost
-	stepStartSeq  int64
+	t0                  int64
+	Opt                 SimOptions
+	aliasRejected       []aliasRej
+	curOp               *Op
+	statsFlagged        map[string]bool
+	flushIdx            int
+	sentBy              map[string][]byte
+	flushFlagged        map[string]bool
+	inl                 *inlineState
+	pendingInline       []pendingInline
+	reported            map[string]map[string]int
+	Store               mqtt.Hook // the storage hook of the current broker instance (if any)
+	Restarts            int
+	PrevSnap            *Snap // model before the step that was executed last
+	CurSnap             *Snap // model after it
+	StoppedAt           int
+	CrashSeq            atomic.Int64 // global sequence number at which the first storage write was lost
+	stepStartSeq        int64
 }
 
 type SimOptions struct {
-	ClientIDs  []string // client id per slot
-	KeepTrace  bool
-	ExtraHooks []eng.HookSpec
-	FirstHooks []eng.HookSpec
-	NoAuthHook bool
-	AuthDeny   func(string) bool
-	CheckStats bool // compare $SYS counters with actual state after every step (C38)
-	CheckFlush bool // compare OnPacketSent bytes with bytes on the wire after every step (C34)
-	StoreOpen  func() (mqtt.Hook, any)   // opens a fresh storage hook on the case's store (start and every restart)
-	WrapStore  func(mqtt.Hook) mqtt.Hook // optional wrapper around the storage hook (crash proxy)
-	AfterRestart func(s *Sim)            // called after a restart has loaded the store, before the history continues
-	Snapshots  bool                      // keep model snapshots before/after the current step (crash-point checks)
-	StopWhen   func() bool               // checked after every step: stop executing the history (crash point reached)
-	Finish     func(s *Sim)              // called by RunCase after the history, before the broker is torn down
+	ClientIDs    []string // client id per slot
+	KeepTrace    bool
+	ExtraHooks   []eng.HookSpec
+	FirstHooks   []eng.HookSpec
+	NoAuthHook   bool
+	AuthDeny     func(string) bool
+	CheckStats   bool                      // compare $SYS counters with actual state after every step (C38)
+	CheckFlush   bool                      // compare OnPacketSent bytes with bytes on the wire after every step (C34)
+	StoreOpen    func() (mqtt.Hook, any)   // opens a fresh storage hook on the case's store (start and every restart)
+	WrapStore    func(mqtt.Hook) mqtt.Hook // optional wrapper around the storage hook (crash proxy)
+	AfterRestart func(s *Sim)              // called after a restart has loaded the store, before the history continues
+	Snapshots    bool                      // keep model snapshots before/after the current step (crash-point checks)
+	StopWhen     func() bool               // checked after every step: stop executing the history (crash point reached)
+	Finish       func(s *Sim)              // called by RunCase after the history, before the broker is torn down
 }
 
 func NewSim(cfg *Config, opt SimOptions) *Sim {
@@ -456,6 +456,13 @@ func (s *Sim) endStep() {
 			if e.Attrs["nolocal_overlap_disagree"] == "true" && e.Out != nil && sl.Sess != nil {
 				sl.Sess.removeOut(e.Out) // flagged once (recorded finding); the broker did not queue it, so nothing is owed later
 			}
+			if e.Kind == rc.PUBLISH && e.Out != nil && !e.Out.Sent && sl.RecvMax > 0 && sl.Sess != nil && sl.Sess.Taint["deferred"] && e.Out.Vars != nil && e.Out.Vars[0].QoS > 0 {
+				// flagged once; on a session whose send quota has leaked (recorded findings) the broker holds the
+				// message back although the model reckons there is room: it stays owed and counts as held back
+				e.Out.Deferred, e.Out.WasDeferred, e.Optional = true, true, true
+				keep = append(keep, e)
+				m.count("missing_delivery_on_leaky_quota_kept_as_held_back")
+			}
 		}
 		sl.Exp = keep
 	}
@@ -685,7 +692,7 @@ func (s *Sim) onBrokerPublish(sl *Slot, rp *eng.RxPacket) {
 			ua := sl.taintAttrs()
 			ua["mps_limited"] = fmt.Sprint(sl.MPS > 0)
 			ua["recv_max_limited"] = fmt.Sprint(sl.RecvMax > 0)
-			m.flag("C24/unbound-alias", ua,"slot %d: PUBLISH with empty topic uses alias %d that no earlier PUBLISH on this connection bound", sl.Idx, a)
+			m.flag("C24/unbound-alias", ua, "slot %d: PUBLISH with empty topic uses alias %d that no earlier PUBLISH on this connection bound", sl.Idx, a)
 		}
 	} else if topic == "" {
 		m.flag("C24/empty-topic-no-alias", nil, "slot %d: PUBLISH with empty topic and no alias", sl.Idx)
@@ -991,4 +998,6 @@ func (s *Sim) deliveredBefore(sl *Slot, msg *Msg) bool {
 	return false
 }
 
-func isGlobalOp(k string) bool { return strings.HasPrefix(k, "inline") || k == "tick" || k == "sys" || k == "restart" }
+func isGlobalOp(k string) bool {
+	return strings.HasPrefix(k, "inline") || k == "tick" || k == "sys" || k == "restart"
+}
